@@ -4,7 +4,7 @@
 From Coq Require Import Reals List Bool.
 From SV Require Import Rot.RotBase Gen.RotFormulas_gen Rot.RotAlgebra Rot.RotEuler Rot.RotEulerProofs
   Rot.RotDispatch Rot.RotDispatchProofs Rot.RotMixedProofs Rot.RotInplace Rot.RotMethods Rot.RotMethodsProofs Rot.RotGJ Rot.RotGJProofs Rot.RotGJTotal
-  Rot.RotGJTotalProofs.
+  Rot.RotGJTotalProofs Rot.RotState.
 Import ListNotations.
 Open Scope R_scope.
 
@@ -52,4 +52,23 @@ Proof.
   - intros r H. apply (methods_ok_sound atan2 methods Mo r H).
   - intros m H. split; intro Hh; [apply (euler_roundtrip atan2 A m H Hh) | apply (gimbal_error_bound atan2 A m H Hh)].
   - intros m H. apply (gj_inverse_rotation_is_transpose prog P1 P2 m H).
+Qed.
+
+(** Round 5: the statement holds of EVERY call, not of the first call of a process.  [run a g] is one public call (entry point and
+    arguments [a]) in the process state [g]; if the census of long-lived objects read from math.py is accepted and is a footprint
+    of [run] (the trusted step: the census reads the source), then after any history [h] of earlier calls a call returns what it
+    returns in the initial state - so whatever [c04_statement] says about the value a constructor / operator computes holds
+    for the value it returns after any history. *)
+Definition c04_history_statement (sc : state_census) : Prop :=
+  forall (V A B : Type) (run : A -> store V -> B * store V), footprint V A B run (sc_reads sc) (sc_writes sc) ->
+  forall h a g, fst (run a (after V A B run h g)) = fst (run a g).
+
+Theorem c04_whole_property_histories : forall atan2 tbl prog census methods sc,
+  atan2_spec atan2 -> table_ok tbl = true -> gj_prog_ok prog = true -> gj_total_ok prog = true -> census_ok census = true ->
+  methods_ok methods = true -> state_ok sc = true ->
+  c04_statement atan2 tbl prog census methods /\ c04_history_statement sc.
+Proof.
+  intros atan2 tbl prog census methods sc A T P1 P2 C Mo St. split.
+  - exact (c04_whole_property atan2 tbl prog census methods A T P1 P2 C Mo).
+  - intros V A0 B run F. exact (state_ok_history_independent V A0 B run sc St F).
 Qed.
